@@ -133,6 +133,42 @@ def gen_multi_group(rng, min_groups=2, max_groups=4):
     return {"triples": layout(order, lengths, gaps, rng), "family": "multigroup:%d" % groups}
 
 
+def gen_multi_group_rising(rng, min_groups=2, max_groups=3):
+    """Independent knotted groups in each of which the stems that open first are the shorter ones: in every group
+    first-come-first-served is *not* optimal, so a notation that is optimal in some groups and first-come-first-served
+    in others is neither.  For code that solves a request in several parts, some of which fail."""
+    groups = rng.randint(min_groups, max_groups)
+    order, lengths = [], []
+    base = 0
+    for _ in range(groups):
+        kind = rng.choice(["htype", "htype", "ladder3", "kissing", "path3"])
+        t = TEMPLATES[kind]
+        order += [base + s for s in t]
+        k = max(t) + 1
+        L = rng.randint(1, 2)
+        step = rng.randint(1, 2)
+        lengths += [L + step * s for s in range(k)]
+        base += k
+    gaps = [rng.randint(0, 2) for _ in range(len(order) + 1)]
+    return {"triples": layout(order, lengths, gaps, rng), "family": "multigroup-rising:%d" % groups}
+
+
+def gen_band(rng, stems=10, min_reach=2, max_reach=3):
+    """`stems` stems of which stem i crosses stems i+1 .. i+reach: one connected knotted group whose conflict graph is
+    a band.  With ten stems it is the smallest group on which BpSeq.all_dot_brackets walks 10! orderings (about two
+    minutes on the unchanged tree): the first size at which somebody is tempted to sample orderings instead."""
+    reach = rng.randint(min_reach, max_reach)
+    order = []
+    for i in range(stems):
+        order.append(i)
+        if i - reach >= 0:
+            order.append(i - reach)
+    order += list(range(max(stems - reach, 0), stems))
+    lengths = [rng.randint(1, 2) for _ in range(stems)]
+    gaps = [rng.randint(0, 1) for _ in range(len(order) + 1)]
+    return {"triples": layout(order, lengths, gaps, rng), "family": "band:%d/%d" % (stems, reach)}
+
+
 def gen_many(rng, min_stems=10, max_stems=16, max_len=3):
     """Many stems (>= 10 regions, two-digit region indexes) but sparse crossings, so that exact
     reference optimisation stays cheap: a chain of blocks (hairpins, nested pairs, small knots), optionally
